@@ -423,7 +423,8 @@ def run_case_c12(ops, rng, stats, m, cap=70):
             hold.append(h)
             for fn, name, exp in ((sdn.get_hwires, 'get_hwires', E.expected_hwires), (sdn.get_hcables, 'get_hcables', E.expected_hcables)):
                 for s in SELS:
-                    refs = list(fn(h, selection=hw.SEL[s]))
+                    # the selection is accepted as a Selection member or by its name
+                    refs = list(fn(h, selection=(hw.SEL[s] if (j + len(t)) % 2 == 0 else s)))
                     raw = [hw.tup(w, x) for x in refs]
                     if len(raw) != len(set(raw)):
                         P.add('oracle', 'C12|%s|%s|%s|duplicate-reference' % (name, s, k), start=t)
@@ -441,6 +442,47 @@ def run_case_c12(ops, rng, stats, m, cap=70):
             cmp3(P, 'get_hpins(%s %s)' % (k, t), 'C12|get_hpins|%s' % k, raw, hw.parse_hrefs(ans[j]), E.expected_hpins_of(t))
             j += 1
             stats['trace:get_hpins/%s' % k] += 1
+        # -- history after the queries (a third of the netlists): one pin is taken off a wire and another, so far
+        #    unconnected, pin of the same cell is put on it - the wire has as many pins as before - and the tracing
+        #    questions are asked again from members of the nets: whatever a query remembers about a wire it walked
+        #    through must follow the edit
+        if rng.random() < 0.34 and not P:
+            cand = []
+            for i, o in enumerate(w.objs):
+                if isinstance(o, sdn.ir.Wire) and o.pins and o.cable is not None and o.cable.definition is not None:
+                    d = o.cable.definition
+                    free = [p for port in d.ports for p in port.pins if p.wire is None]
+                    free += [op for c in d.children for op in c.pins.values() if op.wire is None]
+                    if free:
+                        cand.append((i, o, free))
+            if cand:
+                i, o, free = rng.choice(cand)
+                eops = [['disconnect', str(i), w.tok_pin(rng.choice(list(o.pins))).replace('O', 'S', 1)],
+                        ['connect', str(i), w.tok_pin(rng.choice(free)).replace('O', 'S', 1), '~']]
+                eouts = [w.apply(op) for op in eops]
+                mo = m.ops(eops)
+                if eouts != mo:
+                    P.add('corr', 'corr|edit-outcome', ops=[' '.join(x) for x in eops], impl=eouts, model=mo)
+                    return P
+                stats['c12-edit:%s' % '/'.join(eouts)] += 1
+                m.ask(['prep %d' % n])
+                E2 = hier_oracles.Elab(w, nl)
+                if E2.rooted:
+                    E2.build_nets()
+                    starts2 = [(k, t) for k in ('wire', 'pin') for t in sample(rng, E2.by_kind[k], 14)]
+                    qs = []
+                    for k, t in starts2:
+                        qs += ['hwires %d ALL 0 %s' % (n, hw.tok(t)), 'hcables %d ALL 0 %s' % (n, hw.tok(t))]
+                    ans = m.ask(qs)
+                    j = 0
+                    for k, t in starts2:
+                        h = hw.href_of(w, t)
+                        for fn, name, exp in ((sdn.get_hwires, 'get_hwires', E2.expected_hwires), (sdn.get_hcables, 'get_hcables', E2.expected_hcables)):
+                            raw = [hw.tup(w, x) for x in fn(h, selection='ALL')]
+                            cmp3(P, '%s(%s %s, selection=ALL) after moving a pin' % (name, k, t), 'C12|%s|ALL|%s|after-edit' % (name, k),
+                                 sorted(raw), hw.parse_hrefs(ans[j]), exp(t, 'ALL'))
+                            j += 1
+                            stats['trace:after-edit/%s' % name] += 1
         return P
     finally:
         w.close()
